@@ -109,7 +109,10 @@ func interp(expr ast.Expr, env *val.Env) *val.Val {
 
 	case *ast.MemberExpr:
 		// 也可以 desugar 成 build-in-fun
-		return interp(e.Obj, env).Obj().V[e.Index]
+		// 对象类型相等不区分字段顺序, 运行时对象的字段位置以自身类型为准, 所以按名字取
+		v, ok := interp(e.Obj, env).Obj().Get(e.Field.Name)
+		util.Assert(ok, "undefined field %s", e.Field.Name)
+		return v
 
 	//case *ast.IfExpr:
 	//	// IF 已经 desugar 成 lazyFun 了, 这里已经没用了
